@@ -1,5 +1,6 @@
 // C16 — explicit-state BFS (to fixpoint) over a real Teakra::Btdmp with a reference FIFO + frame clock.
 #pragma once
+#include <memory>
 #include <deque>
 #include "../common/verif.h"
 #include "btdmp.h"
@@ -129,18 +130,20 @@ inline std::string Show(const Event& e) {
 }
 
 struct Engine {
-    Teakra::CoreTiming core_timing;
-    Teakra::Btdmp dev{core_timing};
+    // every Load() constructs a fresh device: state beyond the fields loaded here starts from the constructor's value
+    struct Rig {
+        Teakra::CoreTiming core_timing;
+        Teakra::Btdmp dev{core_timing};
+    };
+    std::unique_ptr<Rig> rig = std::make_unique<Rig>();
+#define dev rig->dev
     Obs obs;
     Result& res;
     u16 base;
     bool large = false; // large-period layer: sparse Skip(k) alphabet, depth-bounded
     std::set<u64> digests;
 
-    Engine(Result& r, u16 base) : res(r), base(base) {
-        dev.SetInterruptHandler([this]() { ++obs.irq; });
-        dev.SetAudioCallback([this](std::array<std::int16_t, 2> f) { obs.frames.push_back(f); });
-    }
+    Engine(Result& r, u16 base) : res(r), base(base) {}
     Full Concrete(const BS& b) const {
         Full f;
         f.b = b;
@@ -149,6 +152,9 @@ struct Engine {
         return f;
     }
     void Load(const Full& f) {
+        rig = std::make_unique<Rig>();
+        dev.SetInterruptHandler([this]() { ++obs.irq; });
+        dev.SetAudioCallback([this](std::array<std::int16_t, 2> fr) { obs.frames.push_back(fr); });
         dev.transmit_clock_config = 0;
         dev.transmit_period = f.b.period;
         dev.transmit_timer = f.b.timer;
@@ -331,9 +337,66 @@ struct Engine {
         res.Extra(Fmt("%speriod%u_base%04X_states", large ? "L2_" : "", period, base), seen.size());
         res.Extra(Fmt("%speriod%u_base%04X_depth", large ? "L2_" : "", period, base), depth);
     }
+
+    // L3: the port behind CoreTiming (the way the interpreter's idle fast-forward drives it): CoreTiming::Skip(budget) must equal
+    // that many CoreTiming::Tick - same frames in the same order, same interrupts, same state - also when the port reports an
+    // infinite horizon (enabled with an empty queue it still owes one silent frame per period)
+    void CoreTimingLayer() {
+        for (u16 period : {(u16)1, (u16)2, (u16)3, (u16)5, (u16)8})
+            for (u16 timer = 0; timer < period; ++timer)
+                for (u16 enable = 0; enable < 2; ++enable)
+                    for (u16 fill : {(u16)0, (u16)1, (u16)2, (u16)3, (u16)15, (u16)16})
+                        for (u64 budget : {0ull, 1ull, 2ull, 3ull, 7ull, 20ull}) {
+                            BS b{period, timer, enable, (u16)(fill == 0), (u16)(fill == 16), fill};
+                            Full f = Concrete(b);
+                            Load(f);
+                            u64 ticks = 0;
+                            std::string bad;
+                            try {
+                                ticks = rig->core_timing.Skip(budget);
+                            } catch (const Teakra::VerifAssertion& a) {
+                                bad = std::string("assertion ") + a.expression;
+                            }
+                            Full got = Save();
+                            Obs got_obs = obs;
+                            ++res.transitions, ++res.traces_validated, ++res.evaluations;
+                            if (bad.empty() && ticks > budget)
+                                bad = Fmt("returned %llu cycles for a budget of %llu", (unsigned long long)ticks, (unsigned long long)budget);
+                            if (bad.empty()) {
+                                Load(f);
+                                for (u64 i = 0; i < ticks; ++i)
+                                    rig->core_timing.Tick();
+                                Full ticked = Save();
+                                if (!(ticked.b == got.b) || ticked.q != got.q || !(obs == got_obs))
+                                    bad = Fmt("Skip -> %s %s ; %llu x Tick -> %s %s", Show(got).c_str(), Show(got_obs).c_str(), (unsigned long long)ticks, Show(ticked).c_str(), Show(obs).c_str());
+                            }
+                            digests.insert(Fnv(&got.b, sizeof(BS), Mix(budget * 31 + ticks)));
+                            if (!bad.empty())
+                                res.AddViolation("c16:core-timing-skip:" + Cls(b), Fmt("CoreTiming::Skip(%llu) from %s: %s", (unsigned long long)budget, Show(f).c_str(), bad.c_str()),
+                                                 Fmt("c16ct %u %u %u %u %llu base %u", period, timer, enable, fill, (unsigned long long)budget, base));
+                        }
+    }
 };
 
+#undef dev
+
 inline int RunReplay(const std::string& r, Result& res) {
+    {
+        unsigned p, t, en, fill, b;
+        unsigned long long budget;
+        if (std::sscanf(r.c_str(), "c16ct %u %u %u %u %llu base %u", &p, &t, &en, &fill, &budget, &b) == 6) {
+            Engine eng(res, (u16)b);
+            eng.CoreTimingLayer();
+            std::vector<verif::Violation> keep;
+            for (auto& v : res.violations)
+                if (v.replay == r)
+                    keep.push_back(v);
+            res.violations = keep;
+            for (auto& v : res.violations)
+                std::printf("  %s\n    %s\n", v.key.c_str(), v.text.c_str());
+            return res.violations.empty() ? 0 : 1;
+        }
+    }
     unsigned a[6], base;
     int kind;
     unsigned long long arg;
@@ -358,7 +421,7 @@ inline void Run(const Args& args, Result& res) {
         "clock, enable, empty/full flags, queue (consecutive sequence numbers, relabelled to start at "
         "base); events Tick, Send(next), Flush, Enable(0/1), Skip(k) for every k<=min(horizon,2*period+1) "
         "and k=horizon; every transition compared with the reference FIFO/frame-clock model (frames, "
-        "flags, interrupt count, queue content) and Skip(k) with k real Ticks; non-trivial = transition "
+        "flags, interrupt count, queue content) and Skip(k) with k real Ticks; the port behind CoreTiming (Skip(budget) vs that many Ticks); non-trivial = transition "
         "that changes state or emits a frame/interrupt";
     std::vector<u16> periods = args.thorough() ? std::vector<u16>{1, 2, 3, 4, 5, 6, 7, 8, 9, 12, 16, 17}
                                                : std::vector<u16>{1, 2, 3, 4, 5, 7, 8};
@@ -373,6 +436,8 @@ inline void Run(const Args& args, Result& res) {
         eng.large = true;
         for (u16 p : {(u16)4096, (u16)20000, (u16)0x8001, (u16)0xFFFF})
             eng.Explore(p, large_depth);
+        eng.large = false;
+        eng.CoreTimingLayer();
         dist += eng.digests.size();
     }
     res.distinct_nontrivial = dist;
